@@ -97,7 +97,7 @@ class C13(Check):
             var = rng.choice(models.LIB[inst['lib']]['const'] + models.LIB[inst['lib']]['state'])
             val = 0.0 if (var != 'tau' and rng.random() < 0.3) else rng.randint(1, 40) / 16    # exactly 0 is a legal override
             ops.append({'wf': wid, 'op': 'update_var', 'obj': M, 'node_vars': {f'{node}/{opn}/{var}': val}})
-        n_obs = rng.randint(1, 3)
+        n_obs = rng.randint(1, 5 if getattr(self, '_tier', 'quick') == 'thorough' else 3)
         if stratum not in ('S-fortran',) and not spec.get('circuits') and net.inst and rng.random() < 0.15:
             # a parameter sweep over a copy of the circuit (grid_search deep-copies the template it is given)
             (gnode, gop), ginst = rng.choice(list(net.inst.items()))
@@ -204,8 +204,9 @@ class C13(Check):
         return ops, kind
 
     def generate(self, rng, stratum, tier):
-        K = rng.randint(2, 4)
+        K = rng.randint(2, 6 if tier == 'thorough' else 4)     # deeper histories in the thorough tier
         flows = []
+        self._tier = tier
         shared = None
         if stratum in ('S-shared',) or (stratum == 'S-all' and rng.random() < 0.4):
             if rng.random() < 0.5:
